@@ -100,9 +100,14 @@ struct Encoding<
   }
 
   static constexpr std::size_t Size(const Type& value) {
+    // Only visit elements that exist: a size member that is negative or above
+    // the capacity is rejected by WritePayload and must not be dereferenced.
+    const LengthType size = static_cast<LengthType>(value.size());
     std::size_t element_size_sum = 0;
-    for (const ValueType& element : value)
-      element_size_sum += Encoding<ValueType>::Size(element);
+    if (IsUnbounded || size <= Length) {
+      for (LengthType i = 0; i < size; i++)
+        element_size_sum += Encoding<ValueType>::Size(value[i]);
+    }
 
     return BaseEncodingSize(Prefix(value)) +
            Encoding<LengthType>::Size(value.size()) + element_size_sum;
